@@ -610,3 +610,51 @@ def instantiation_family(seed, quick):
         hk = {'n_inst': ninst, 'tab_slots': 5, 'max_host_calls': 4}
         out.append(('inst_mem%s_tab%s_start%d_n%d_v%d' % (memk, tabk, int(startk), ninst, variant), m, script, hk))
     return out
+
+
+# ====================================================================== C07 constants
+I32_CLASSES = [0, 1, 0x7FFFFFFF, 0x80000000, 0xFFFFFFFF, 0x80000001, 0xFFFFFF80, 127, 128, 0x12345678, 0x7FFFFFFE, 64, 0xFFFFFFC0, 8191, 8192]
+I64_CLASSES = [0, 1, 0x7FFFFFFFFFFFFFFF, 0x8000000000000000, 0xFFFFFFFFFFFFFFFF, 0x8000000000000001, 0xFFFFFFFF80000000, 0x80000000,
+               0xFFFFFFFF, 0x100000000, 0xFF51AFD7ED558CCD, 0xC4CEB9FE1A85EC53, 0xF000000000000000, 0xC000000000000000, 0xBFFFFFFFFFFFFFFF,
+               0xFF00000000000000, 0x00FFFFFFFFFFFFFF, 0x7F, 0x80, 0x3FFFFFFFFFFFFFFF, 0x4000000000000000, 0xFFFFFFFFFFFFFFC0]
+F32_CLASSES = [0, 0x80000000, 0x7F800000, 0xFF800000, 0x7FC00000, 0xFFC00000, 0x7FA00000, 0x7F800001, 0xFF800001, 0x7FFFFFFF, 0xFFFFFFFF,
+               0x7FC00001, 0x7F880000, 0x00000001, 0x80000001, 0x007FFFFF, 0x00800000, 0x7F7FFFFF, 0xFF7FFFFF, 0x3F800000, 0xBF800000,
+               0x3DCCCCCD, 0x4F000000, 0xCF000000, 0x4F800000, 0x5F000000, 0x3EAAAAAB, 0x501502F9]
+F64_CLASSES = [0, 0x8000000000000000, 0x7FF0000000000000, 0xFFF0000000000000, 0x7FF8000000000000, 0xFFF8000000000000, 0x7FF4000000000000,
+               0x7FF0000000000001, 0xFFF0000000000001, 0x7FFFFFFFFFFFFFFF, 0xFFFFFFFFFFFFFFFF, 0x7FF8000000000001, 0x7FF0000000800000,
+               0x7FF0000001000000, 0x7FF0000000400000, 0xFFF0000100000000, 0x7FF8000000800000, 0x0000000000000001, 0x8000000000000001,
+               0x000FFFFFFFFFFFFF, 0x0010000000000000, 0x7FEFFFFFFFFFFFFF, 0xFFEFFFFFFFFFFFFF, 0x3FF0000000000000, 0xBFF0000000000000,
+               0x3FB999999999999A, 0xC1E0000000200000, 0x43F0000000000000, 0x41DFFFFFFFC00000, 0xFE37E43C8800759C, 0x7E37E43C8800759C,
+               0x8010000000000000, 0xA9B6A5D5C1B1D1C5]
+
+
+def const_family(seed, quick):
+    """modules returning constants from function bodies and from globals initialised by them; several per module"""
+    rng = random.Random(seed + 707)
+    out = []
+    per = 6
+    def chunks(l):
+        return [l[i:i + per] for i in range(0, len(l), per)]
+    extra = {I32: [rng.getrandbits(32) for _ in range(6)], I64: [rng.getrandbits(64) for _ in range(6)],
+             F32: [rng.getrandbits(32) for _ in range(6)], F64: [rng.getrandbits(64) for _ in range(6)]}
+    for t, classes in ((I32, I32_CLASSES), (I64, I64_CLASSES), (F32, F32_CLASSES), (F64, F64_CLASSES)):
+        vals = list(classes) + extra[t]
+        for ci, ch in enumerate(chunks(vals)):
+            funcs, exports, globs, script = [], [], [], []
+            for k, v in enumerate(ch):
+                funcs.append(Func([], [t], [], [(t + '.const', v)]))
+                exports.append(('c%d' % k, 'func', len(funcs) - 1))
+                script.append({'call': 'c%d' % k})
+                globs.append(Global(t, k % 2 == 0, (t + '.const', v)))
+                funcs.append(Func([], [t], [], [('global.get', k)]))
+                exports.append(('g%d' % k, 'func', len(funcs) - 1))
+                script.append({'call': 'g%d' % k})
+            m = Module(funcs=funcs, globals=globs, exports=exports)
+            out.append(('const_%s_%d' % (t, ci), m, script, {'float_exact': True}))
+    # constants as segment offsets (i32 only by the spec)
+    for k, off in enumerate([0, 1, 5, 7]):
+        f = Func([I32], [I64], [], [('local.get', 0), ('i64.load', 0, 0)])
+        m = Module(funcs=[f], mems=[(1, 1)], tables=[(8, 8)], datas=[Data(('i32.const', off), b'\x01\x02\x03\x04')],
+                   elems=[Elem(('i32.const', off), [0])], exports=[('ld', 'func', 0)])
+        out.append(('const_offset_%d' % off, m, [{'call': 'ld'}], {'tab_slots': 8}))
+    return out
